@@ -79,7 +79,7 @@ static void check_frame(const uint8_t *frame, size_t flen)
 	v.iov_base = blk; v.iov_len = head + flen;
 	int r = dec ? dec(&ds, &v, 1) : -99;
 	printf("R ");
-	if (r == 1 && ds.data.msg >= 0 && ds.data.pos + ds.data.msg <= head + flen) {
+	if (r == 1 && ds.data.msg >= 0 && (size_t) ds.data.msg <= head + flen && ds.data.pos <= head + flen - (size_t) ds.data.msg) {
 		printf("msg=");
 		drv_puthex(stdout, blk + ds.data.pos, ds.data.msg);
 	}
@@ -191,14 +191,15 @@ static void dec_line(int r, int call)
 	/* input not yet consumed must be untouched */
 	for (i = dst.curr; i < total; i++) if (store_at(i) != orig[i]) unread = 0;
 	printf("R ret=%s", retname(r, buf, sizeof(buf)));
-	if (call && r == 1 && dst.data.msg >= 0 && dst.data.pos + (size_t) dst.data.msg <= total) {
+	if (call && r == 1 && dst.data.msg >= 0 && (size_t) dst.data.msg <= total && dst.data.pos <= total - (size_t) dst.data.msg) {
 		printf(" msg=");
 		if (!dst.data.msg) fputc('-', stdout);
 		for (i = 0; i < (size_t) dst.data.msg; i++) { uint8_t b = store_at(dst.data.pos + i); drv_puthex(stdout, &b, 1); }
 	}
 	printf(" guards=%s unread=%s | C data=%zu,%zu,%zd part=", guards ? "ok" : "bad", unread ? "ok" : "bad",
 	       dst.data.pos, dst.data.len, dst.data.msg);
-	if (dst.data.pos + dst.data.len <= total && dst.data.len) {
+	/* overflow-safe: a decoder whose lengths have underflowed must not make the driver print without end */
+	if (dst.data.len && dst.data.len <= total && dst.data.pos <= total - dst.data.len) {
 		for (i = 0; i < dst.data.len; i++) { uint8_t b = store_at(dst.data.pos + i); drv_puthex(stdout, &b, 1); }
 	} else fputc('-', stdout);
 	printf(" | I ctx=%zu,%zu curr=%zu store=", (size_t) (dst._ctx & 0xff), (size_t) (dst._ctx >> 8), dst.curr);
@@ -394,7 +395,7 @@ int main(void)
 			ds.curr = head; v.iov_base = blk; v.iov_len = head + flen;
 			int r = mpt_decode_cobs(&ds, &v, 1);
 			printf("R frame="); drv_puthex(stdout, fr, flen);
-			if (r == 1 && ds.data.msg >= 0) { printf(" msg="); drv_puthex(stdout, blk + ds.data.pos, ds.data.msg); }
+			if (r == 1 && ds.data.msg >= 0 && (size_t) ds.data.msg <= head + flen && ds.data.pos <= head + flen - (size_t) ds.data.msg) { printf(" msg="); drv_puthex(stdout, blk + ds.data.pos, ds.data.msg); }
 			else if (r < 0) printf(" err=%s", drv_errname(r));
 			else printf(" incomplete=%d", r);
 			printf(" | C - | I -\n");
@@ -444,7 +445,7 @@ int main(void)
 			ds.curr = head; v.iov_base = blk; v.iov_len = head + flen;
 			int r = mpt_decode_command(&ds, &v, 1);
 			printf("R out="); drv_puthex(stdout, fr, flen);
-			if (r == 1 && ds.data.msg >= 0) { printf(" msg="); drv_puthex(stdout, blk + ds.data.pos, ds.data.msg); }
+			if (r == 1 && ds.data.msg >= 0 && (size_t) ds.data.msg <= head + flen && ds.data.pos <= head + flen - (size_t) ds.data.msg) { printf(" msg="); drv_puthex(stdout, blk + ds.data.pos, ds.data.msg); }
 			else if (r < 0) printf(" err");
 			else printf(" err");
 			printf(" | C - | I -\n");
